@@ -9,6 +9,7 @@ import (
 	"io"
 	"os"
 	"path/filepath"
+	"reflect"
 	"runtime"
 	"strings"
 	"syscall"
@@ -96,9 +97,10 @@ func (s *vStallReader) Read(p []byte) (int, error) {
 }
 
 type c18Event struct {
-	Kind string // "node" | "error" | "done"
-	Rec  vGotRec
-	Err  string
+	Kind   string // "node" | "error" | "done"
+	Rec    vGotRec
+	Err    string
+	ErrVal error `json:"-"` // the error value itself (the two parsers must hand out equal values, not only equal texts)
 }
 
 func (e c18Event) String() string {
@@ -169,10 +171,13 @@ func c18Callback(text string) []c18Event {
 // that looks something up in another file between two receives, a second stream delivered by a second Parser, a
 // goroutine that parses on its own). Every parse, the one under test and the neighbours, must see its own stream only.
 func checkC18(c c18Case, ctx *vCtx) *vFailure {
-	if c.Neighbour == 0 || c.Input == "huge" {
+	if c.Neighbour == 0 || c.Input == "huge" || c.Input == "merge" {
 		c18Between = nil
 		if c.Input == "huge" {
 			return checkC18Huge(c, ctx)
+		}
+		if c.Input == "merge" {
+			return checkC18Merge(c, ctx)
 		}
 		return checkC18One(c, ctx)
 	}
@@ -400,7 +405,7 @@ func checkC18One(c c18Case, ctx *vCtx) *vFailure {
 			want = append(want, c18Event{Kind: "node", Rec: r})
 		}
 		if err != nil {
-			want = append(want, c18Event{Kind: "error", Err: err.Error()})
+			want = append(want, c18Event{Kind: "error", Err: err.Error(), ErrVal: err})
 		} else {
 			want = append(want, c18Event{Kind: "done"})
 		}
@@ -596,7 +601,7 @@ func checkC18One(c c18Case, ctx *vCtx) *vFailure {
 		case n := <-p.Nodes:
 			got = append(got, c18Event{Kind: "node", Rec: vGotFromNode(n)})
 		case err := <-p.Errors:
-			got = append(got, c18Event{Kind: "error", Err: err.Error()})
+			got = append(got, c18Event{Kind: "error", Err: err.Error(), ErrVal: err})
 			if c.Policy == "documented" {
 				finished = true
 			}
@@ -641,6 +646,9 @@ func checkC18One(c c18Case, ctx *vCtx) *vFailure {
 		g, w := got[i], exp[i]
 		if g.Kind != w.Kind || g.Err != w.Err || g.Rec.Head != w.Rec.Head || strings.Join(g.Rec.Names, "\x00") != strings.Join(w.Rec.Names, "\x00") || fmt.Sprint(g.Rec.Values) != fmt.Sprint(w.Rec.Values) || fmt.Sprintf("%q", g.Rec.Notes) != fmt.Sprintf("%q", w.Rec.Notes) {
 			return vFailf("policy %s on %s: value %d is %s, expected %s (full: %s vs %s)", c.Policy, c.Input, i, g, w, c18Fmt(got), c18Fmt(exp))
+		}
+		if g.ErrVal != nil && w.ErrVal != nil && !reflect.DeepEqual(g.ErrVal, w.ErrVal) {
+			return vFailf("policy %s on %s: the error the consumer receives is not the error the callback parser reports, although both print %q: %#v vs %#v", c.Policy, c.Input, g.Err, g.ErrVal, w.ErrVal)
 		}
 	}
 	if c.Policy == "drain" {
@@ -849,6 +857,102 @@ func checkC18Huge(c c18Case, ctx *vCtx) *vFailure {
 	return nil
 }
 
+// checkC18Merge: K files delivered by K Parsers at the same time, to one consumer that first takes the head of every
+// stream (as a merge of journals does) and then drains them one after the other. Every stream must deliver what the
+// callback parser reports for its file, however many are open at once.
+func checkC18Merge(c c18Case, ctx *vCtx) *vFailure {
+	k := c.Warmup
+	dir := filepath.Join(vScratchDir(), "c18-merge")
+	_ = os.RemoveAll(dir)
+	if err := os.MkdirAll(dir, 0o755); err != nil {
+		vFault("mkdir: %v", err)
+	}
+	ctx.Labelf("streams=%d", k)
+	ctx.NonTrivial(true)
+	ctx.Run(k)
+	type stream struct {
+		p      *parser.Parser
+		want   string
+		got    []c18Event
+		exited chan struct{}
+	}
+	streams := make([]*stream, k)
+	for i := range streams {
+		text := fmt.Sprintf("journal %d first:\n  a: %d\n  b: 2\njournal %d second:\n  c: 3\njournal %d third:\n  d: 4\n", i, i, i, i)
+		path := filepath.Join(dir, fmt.Sprintf("j%d.yaml", i))
+		if err := os.WriteFile(path, []byte(text), 0o644); err != nil {
+			vFault("write: %v", err)
+		}
+		st := &stream{p: func() *parser.Parser { p := parser.NewParser(parser.NewDefaultConfig()); return &p }(), want: c18Fmt(c18Callback(text)), exited: make(chan struct{})}
+		streams[i] = st
+		go func() { defer close(st.exited); st.p.ParseFile(path) }()
+	}
+	defer func() { // let every producer come to an end
+		for _, st := range streams {
+			st := st
+			go func() {
+				for {
+					select {
+					case <-st.exited:
+						return
+					case <-st.p.Nodes:
+					case <-st.p.Errors:
+					case <-st.p.Done:
+					}
+				}
+			}()
+		}
+	}()
+	recv := func(i int, st *stream) (done bool, f *vFailure) {
+		select {
+		case n := <-st.p.Nodes:
+			st.got = append(st.got, c18Event{Kind: "node", Rec: vGotFromNode(n)})
+		case err := <-st.p.Errors:
+			st.got = append(st.got, c18Event{Kind: "error", Err: err.Error()})
+		case <-st.p.Done:
+			st.got = append(st.got, c18Event{Kind: "done"})
+			return true, nil
+		case <-time.After(20 * time.Second):
+			return true, vFailf("%d files are delivered at the same time: stream %d delivers nothing for 20 s (received so far: %s); on its own the file gives %s", k, i, c18Fmt(st.got), st.want)
+		}
+		return false, nil
+	}
+	for i, st := range streams { // the head of every stream
+		if _, f := recv(i, st); f != nil {
+			return f
+		}
+	}
+	for i, st := range streams { // then each stream to its end
+		for n := 0; n < 20; n++ {
+			done, f := recv(i, st)
+			if f != nil {
+				return f
+			}
+			if done {
+				break
+			}
+		}
+		if got := c18Fmt(st.got); got != st.want {
+			return vFailf("%d files are delivered at the same time: stream %d delivered %s; on its own the file gives %s", k, i, got, st.want)
+		}
+	}
+	return nil
+}
+
+func TestVerifC18Merge(t *testing.T) {
+	ks := []int{2, 8, 9, 17, 70}
+	if vThorough() {
+		ks = append(ks, 33, 129, 300, 1100)
+	}
+	var space []c18Case
+	for _, k := range ks {
+		space = append(space, c18Case{Input: "merge", Policy: "drain", Procs: 2, Warmup: k})
+	}
+	vEnum(t, "C18", "c18.merge",
+		"2, 8, 9, 17, 70 (thorough: up to 1100) files delivered by as many Parsers at the same time to a consumer that first takes the head of every stream and then drains them one after the other: each stream must deliver what the callback parser reports for its file",
+		fmt.Sprintf("%d cases", len(space)), len(space), func(i int) c18Case { return space[i] }, checkC18)
+}
+
 func TestVerifC18Huge(t *testing.T) {
 	space := []c18Case{{Input: "huge", Policy: "drain", Procs: 2, LongLine: 1024}}
 	if vThorough() {
@@ -861,6 +965,7 @@ func TestVerifC18Huge(t *testing.T) {
 
 func init() {
 	vRegister("C18", "c18.huge", checkC18)
+	vRegister("C18", "c18.merge", checkC18)
 	vRegister("C18", "c18.schedules", checkC18)
 	vRegister("C18", "c18.slowfifo", checkC18)
 }
